@@ -140,7 +140,9 @@ def run(c):
         op = CALL[e["op"]]
         cls = kind
         if kind == "panic" and not e["nil"] and len(e["before"]) == 0:
-            cls = "panic-empty-message" if e["op"] == "Mac" else "panic-empty-payload"
+            cls = "panic-empty-payload"
+            if e["op"] == "Mac":
+                cls = "nia1-panic-empty-message" if (e["alg"] == 1 and e["pfn"].endswith("security.NIA1")) else "panic-empty-message"
         evs, ops = history_of(idx)
         what = "%s alg=%d bearer=%d dir=%d payload %s: %s%s (history of %d operations)" % (
             op, e["alg"], e["bearer"], e["dir"], "nil" if e["nil"] else "%d octets" % len(e["before"]), kind,
